@@ -41,8 +41,17 @@ def valid_hook(prog: Program):
             r = prog.resolve_call(e.func, an.fn.mod, an.fn)
             if r and r[0] == "fn" and r[1].key == ("core", "is_valid_python"):
                 return f"valid({an.term(e.args[0], w)})"
+        # the tree comparison keeps_syntax_tree(old, new) answers True only when `new` parsed - or `old` did not; C03 is about
+        # valid inputs, and `old` has to be a parameter of the function (the input itself).  Shape of the comparison: R3.4.
+        if isinstance(e, ast.Call) and len(e.args) == 2 and not e.keywords and isinstance(e.args[0], ast.Name) and e.args[0].id in an.fn.all_params:
+            r = prog.resolve_call(e.func, an.fn.mod, an.fn)
+            if r and r[0] == "fn" and r[1].key == COMPARISON_ORACLE:
+                return f"valid({an.term(e.args[1], w)})"
         return None
     return hook
+
+
+COMPARISON_ORACLE = ("core", "keeps_syntax_tree")
 
 
 class SafeText:
@@ -225,6 +234,37 @@ def check(prog: Program, tier: str) -> Result:
     if n_true == 0:
         res.bad("R3.4", oracle.loc(), oracle.fq, "no return that can be True", "the oracle can never accept a text")
 
+    # the comparison oracle keeps_syntax_tree(old, new): every answer that can be true requires that `new` parsed, or that `old` did not
+    comp = prog.funcs.get(COMPARISON_ORACLE)
+    if comp is not None and len(comp.posparams) >= 2:
+        old_p, new_p = comp.posparams[:2]
+        cpa = PathAnalysis(prog, comp)
+
+        def parsed_var(param: str) -> Optional[str]:
+            for name, defs in __import__("sa.defuse", fromlist=["bindings"]).bindings(comp).items():
+                for _st, v in defs:
+                    if isinstance(v, ast.Call) and len(v.args) == 1 and isinstance(v.args[0], ast.Name) and v.args[0].id == param:
+                        rr = prog.resolve_call(v.func, comp.mod, comp)
+                        if rr and rr[0] == "fn" and _none_unless_parsed(prog, rr[1]):
+                            return name
+            return None
+        old_v, new_v = parsed_var(old_p), parsed_var(new_p)
+        for r in [n for n in walk_own(comp.node) if isinstance(n, ast.Return) and n.value is not None]:
+            v = r.value
+            if isinstance(v, ast.Constant) and not v.value:
+                continue
+            ok = False
+            if old_v and new_v:
+                is_none = lambda name: ast.parse(f"{name} is None", mode="eval").body
+                for w in cpa.worlds_at(r) or []:
+                    pass
+                # (i) reached only when old did not parse, or (ii) the value itself demands that new parsed
+                ok1, _ = cpa.holds_at(r, lambda w: cpa.formula(is_none(old_v), w, True))
+                demands = isinstance(v, ast.BoolOp) and isinstance(v.op, ast.And) and any(norm(x).replace(" ", "") in (f"{new_v}isnotNone", f"Noneisnot{new_v}") for x in v.values)
+                ok2, _ = cpa.holds_at(r, lambda w: cpa.formula(is_none(new_v), w, False))
+                ok = ok1 or demands or ok2
+            res.decide(ok, "R3.4", comp.loc(r), comp.fq, f"{norm(r)} # the comparison oracle", "true only when the new text parsed, or the old one did not" if ok else
+                       "the comparison can answer True for a new text that does not parse although the old one did: stages that rely on it hand on broken text")
     # ---------------- R3.1 rollback dominance
     anchors = [prog.func(m, q) for m, q in ANCHORS]
     for fn in anchors:
@@ -273,9 +313,10 @@ def check(prog: Program, tier: str) -> Result:
             continue
         s = st.summary.get(st.wrapper.key) if (fn.is_fix and st.wrapper) else st.summary.get(fn.key, UNKNOWN)
         kind = "scheduled (through processing.fix wrapper)" if fn.is_fix else "direct"
+        r38 = (not fn.is_fix) and _r3_8(prog, res, fn)      # judges the regex steps of whitespace editors, whatever follows them
         if s in (PARAM, VALID, SAFE):
             res.ok("R3.3", fn.loc(), fn.fq, f"pipeline stage {fn.fq}", f"{kind}: returns its input or a validated text [{s}]")
-        elif not fn.is_fix and _r3_8(prog, res, fn):
+        elif r38:
             res.ok("R3.3", fn.loc(), fn.fq, f"pipeline stage {fn.fq}", "direct editor made of whitespace-only regex substitutions that end at a line boundary (R3.8)")
         else:
             res.undecided("R3.3", fn.loc(), fn.fq, f"pipeline stage {fn.fq}",
@@ -515,20 +556,31 @@ def _r3_8(prog: Program, res: Result, fn: Func) -> bool:
         return False
     body = [s_ for s_ in fn.node.body if not (isinstance(s_, ast.Expr) and isinstance(s_.value, ast.Constant))]
     steps = []
-    for s_ in body[:-1]:
-        if not (isinstance(s_, ast.Assign) and len(s_.targets) == 1 and isinstance(s_.targets[0], ast.Name) and s_.targets[0].id == p and isinstance(s_.value, ast.Call)):
-            return False
+    cur = p                 # the variable that holds the text so far (the parameter itself, or one new name)
+    rest = list(body)
+    while rest:
+        s_ = rest[0]
+        if not (isinstance(s_, ast.Assign) and len(s_.targets) == 1 and isinstance(s_.targets[0], ast.Name) and isinstance(s_.value, ast.Call)):
+            break
         c = s_.value
         if prog.dotted(c.func) == "re.sub" and len(c.args) == 3 and not c.keywords:
             pat, repl, text = c.args
         elif isinstance(c.func, ast.Attribute) and c.func.attr == "sub" and len(c.args) == 2 and not c.keywords:
             pat, (repl, text) = c.func.value, c.args
         else:
-            return False
-        if not (isinstance(text, ast.Name) and text.id == p):
-            return False
+            break
+        tgt = s_.targets[0].id
+        if not (isinstance(text, ast.Name) and text.id == cur and (tgt == cur or (cur == p and tgt != p))):
+            break
+        cur = tgt
         steps.append((s_, pat, repl))
-    if not steps or not (isinstance(body[-1], ast.Return) and isinstance(body[-1].value, ast.Name) and body[-1].value.id == p):
+        rest.pop(0)
+    if not steps:
+        return False
+    # the whole function is such an editor when nothing but `return <text>` follows; with a tail (a comparison of the result with
+    # the input, say) the steps are still judged, the function as a whole is judged by its safe-text summary
+    whole = len(rest) == 1 and isinstance(rest[0], ast.Return) and isinstance(rest[0].value, ast.Name) and rest[0].value.id == cur
+    if not whole and any(isinstance(x, ast.Name) and isinstance(x.ctx, ast.Store) and x.id == cur for st_ in rest for x in ast.walk(st_)):
         return False
     all_ok = True
     for s_, pat, repl in steps:
@@ -632,7 +684,7 @@ def _r3_8(prog: Program, res: Result, fn: Func) -> bool:
         all_ok = all_ok and ok
         res.decide(ok, "R3.8", fn.loc(s_), fn.fq, short(s_, 90),
                    "whitespace-only substitution that ends at a line boundary" if ok else "; ".join(problems))
-    return all_ok
+    return all_ok and whole
 
 
 def _r3_7(prog: Program, res: Result) -> None:
@@ -873,6 +925,31 @@ def _r3_5(prog: Program, res: Result) -> None:
     res.floors["R3.5"] = 1
 
 
+def _none_unless_parsed(prog: Program, f: Func) -> bool:
+    """f(text) returns a tree only out of a successful ast.parse of (a text derived from) its parameter, and None otherwise:
+    every return is `return None` or returns a name bound, in a try with a SyntaxError handler, to ast.parse(..)."""
+    rets = [r for r in walk_own(f.node) if isinstance(r, ast.Return)]
+    if not rets:
+        return False
+    for r in rets:
+        if r.value is None or (isinstance(r.value, ast.Constant) and r.value.value is None):
+            continue
+        if not isinstance(r.value, ast.Name):
+            return False
+        ok = False
+        for t in walk_own(f.node):
+            if isinstance(t, ast.Try) and any("SyntaxError" in norm(h.type) for h in t.handlers if h.type is not None):
+                for st_ in t.body:
+                    if isinstance(st_, ast.Assign) and isinstance(st_.targets[0], ast.Name) and st_.targets[0].id == r.value.id \
+                            and isinstance(st_.value, ast.Call) and norm(st_.value.func) in ("ast.parse", "parse", "core.parse"):
+                        # a failed parse must not fall through to the return: the handler leaves (continue / return / raise)
+                        if all(h.body and isinstance(h.body[-1], (ast.Continue, ast.Return, ast.Raise)) for h in t.handlers):
+                            ok = True
+        if not ok:
+            return False
+    return True
+
+
 def _dominated_by_parse(prog: Program, fn: Func, ret: ast.Return, param: Optional[str]) -> Tuple[bool, str]:
     from ..model import ancestors
     prev = ret
@@ -1070,6 +1147,8 @@ def _sub_summary(prog: Program, st: SafeText) -> str:
 from ..selftest import Variant  # noqa: E402
 
 VARIANTS = [
+    Variant("comparison-oracle-accepts-unparsable-result", "FIRE", "core", "    return new_root is not None and ast.dump(old_root) == ast.dump(new_root)\n", "    return new_root is None or ast.dump(old_root) == ast.dump(new_root)\n", "R3.4"),
+    Variant("comparison-parser-hands-back-a-tree-after-failure", "FIRE", "core", "        except (SyntaxError, ValueError, RecursionError, MemoryError):\n            continue\n\n        # Whitespace inside docstrings", "        except (SyntaxError, ValueError, RecursionError, MemoryError):\n            root = ast.Module(body=[], type_ignores=[])\n\n        # Whitespace inside docstrings", "R3.4"),
     Variant("duplicates-removed-with-the-tree-of-the-old-text", "FIRE", "fixes",
             "        source = new_source\n        root = core.parse(source)\n", "        source = new_source\n", "R3.11"),
     Variant("normalised-text-handed-back-for-a-valid-input", "FIRE", "main",
@@ -1077,12 +1156,12 @@ VARIANTS = [
     Variant("semicolon-purge-crosses-line-breaks", "FIRE", "processing", "        semicolon_anti_delimiters = re.findall(r\"^[ \\t]*;[ \\t]*\", source[end:])", "        semicolon_anti_delimiters = re.findall(r\"^\\s*;\\s*\", source[end:])", "R3.9"),
     Variant("semicolon-purge-with-a-negated-class", "SILENT", "processing", "        semicolon_anti_delimiters = re.findall(r\"^[ \\t]*;[ \\t]*\", source[end:])", "        semicolon_anti_delimiters = re.findall(r\"^[^\\S\\n]*;[^\\S\\n]*\", source[end:])"),
     Variant("blank-line-patterns-precompiled", "SILENT", "fixes",
-            "    source = re.sub(r\"(\\n\\s*){3,}\\n\", \"\\n\" * 3, source)\n", "    source = _MANY_BREAKS.sub(\"\\n\" * 3, source)\n",
+            "    new_source = re.sub(r\"(\\n\\s*){3,}\\n\", \"\\n\" * 3, source)\n", "    new_source = _MANY_BREAKS.sub(\"\\n\" * 3, source)\n",
             extra=[("fixes", "def fix_too_many_blank_lines(source: str) -> str:", "_MANY_BREAKS = re.compile(r\"(\\n\\s*){3,}\\n\")\n\n\ndef fix_too_many_blank_lines(source: str) -> str:")]),
     Variant("blank-line-pattern-eats-indentation", "FIRE", "fixes",
-            "    source = re.sub(r\"(\\n\\s*){3,}\\n\", \"\\n\" * 3, source)\n", "    source = re.sub(r\"(\\n\\s*){4,}\", \"\\n\" * 3, source)\n", "R3.8"),
+            "    new_source = re.sub(r\"(\\n\\s*){3,}\\n\", \"\\n\" * 3, source)\n", "    new_source = re.sub(r\"(\\n\\s*){4,}\", \"\\n\" * 3, source)\n", "R3.8"),
     Variant("blank-line-pattern-joins-lines", "FIRE", "fixes",
-            "    source = re.sub(r\"(\\n\\s*){3,}\\n\", \"\\n\" * 3, source)\n", "    source = re.sub(r\"(\\n\\s*){3,}\\n\", \"\", source)\n", "R3.8"),
+            "    new_source = re.sub(r\"(\\n\\s*){3,}\\n\", \"\\n\" * 3, source)\n", "    new_source = re.sub(r\"(\\n\\s*){3,}\\n\", \"\", source)\n", "R3.8"),
     Variant("scheduled-results-only-parsed", "FIRE", "processing",
             "    if core.is_compilable(source) and not core.is_compilable(new_source):\n        return source  # For example a return that ended up outside of its function\n\n    return new_source\n\n\ndef fix(", "    return new_source\n\n\ndef fix(", "R3.7"),
     Variant("compile-check-not-relative-to-the-input", "SILENT", "processing",
